@@ -266,6 +266,14 @@ class Facts:
                     out.append(("notcontains", args[0], args[1]))
             if key == "usize::checked_mul" and name == "Some" and len(args) == 2:
                 out.append(("nomulovf", args[0], args[1]))
+            if key == "core::num::nonzero::NonZero::new" and len(args) == 1:
+                # NonZero::new(x) is Some exactly when x != 0
+                z = ("const", "usize", 0)
+                if name == "Some":
+                    out.append(("lt", z, args[0]))
+                    out.append(mk_ne(args[0], z))
+                elif name == "None":
+                    out.append(mk_eq(args[0], z))
             if key == "core::option::Option::filter" and name == "Some" and len(args) == 2 and args[1][0] == "agg" and args[1][1] == "closure":
                 out.extend(self._option_filter_facts(X, args))
         if X[0] == "site" and name == "Some":
